@@ -4,7 +4,9 @@ import (
 	"sort"
 	"strings"
 
+	"github.com/BlackVectorOps/semantic_firewall/v3/pkg/analysis/ir"
 	"github.com/BlackVectorOps/semantic_firewall/v3/pkg/analysis/topology"
+	"golang.org/x/tools/go/ssa"
 )
 
 type TopologyMatch struct {
@@ -175,6 +177,25 @@ func MatchFunctionsByTopology(oldResults, newResults []FingerprintResult, thresh
 			}
 			return true
 		}
+		// Last resort: the body with every literal kept (integers the default policy abstracts,
+		// strings beyond the topology's truncation point). Computed only for tied candidates.
+		exact := map[*ssa.Function]string{}
+		exactFP := func(r FingerprintResult) string {
+			fn := r.GetSSAFunction()
+			if fn == nil {
+				return ""
+			}
+			if fp, ok := exact[fn]; ok {
+				return fp
+			}
+			fp := GenerateFingerprint(fn, ir.KeepAllLiteralsPolicy, false).Fingerprint
+			exact[fn] = fp
+			return fp
+		}
+		sameExactBody := func(c candidate) bool {
+			o, n := exactFP(unmatchedOld[c.oldIdx]), exactFP(unmatchedNew[c.newIdx])
+			return o != "" && o == n
+		}
 		sort.SliceStable(candidates, func(i, j int) bool {
 			if candidates[i].sim != candidates[j].sim {
 				return candidates[i].sim > candidates[j].sim
@@ -182,7 +203,10 @@ func MatchFunctionsByTopology(oldResults, newResults []FingerprintResult, thresh
 			if bi, bj := sameBody(candidates[i]), sameBody(candidates[j]); bi != bj {
 				return bi
 			}
-			return sameLiterals(candidates[i]) && !sameLiterals(candidates[j])
+			if li, lj := sameLiterals(candidates[i]), sameLiterals(candidates[j]); li != lj {
+				return li
+			}
+			return sameExactBody(candidates[i]) && !sameExactBody(candidates[j])
 		})
 
 		usedOld := make(map[int]bool)
